@@ -18,7 +18,7 @@
   size ≤ 2^31 (resp. < 2^31 = INT_MAX+1); `ring_move_head_size_witness` shows
   that the bound is necessary for the code as written (recorded finding).
 -/
-import IgrisModel.C03.More3
+import IgrisModel.C03.More4
 namespace Igris.C03
 open Igris.Proto
 
@@ -260,39 +260,40 @@ ring of size 3) the sequence push, push, pop, push — never more than 2 stored 
 writes slot 2, outside the buffer. -/
 theorem ring_resize_orig_witness :
     (((TRing.resizeOrig (0 : Int) TRing.empty 2).push 1).bind fun t =>
-      (t.push 2).bind fun t => t.pop.bind fun t => t.push 3).isNone = true ∧
+      (t.push 2).bind fun t => (t.pop 0).bind fun t => t.push 3).isNone = true ∧
     (((TRing.resize (0 : Int) TRing.empty 2).push 1).bind fun t =>
-      (t.push 2).bind fun t => t.pop.bind fun t => t.push 3).isSome = true := by
+      (t.push 2).bind fun t => (t.pop 0).bind fun t => t.push 3).isSome = true := by
   decide
 
 /-- index invariant of the typed ring: push/emplace and pop from ANY state with
 `head, tail < size ≤ |buffer|` (full or not, empty or not) stay inside the buffer
 and keep `head, tail < size`; every index produced by fixup_index — hence used by
 last() and get_last() with any offset/count — lies in `[0, size)`. -/
-theorem ring_typed_inv {α : Type} (t : TRing α) (x : α) (i : BitVec 32) (h : t.r.WF)
+theorem ring_typed_inv {α : Type} (t : TRing α) (x d : α) (i : BitVec 32) (h : t.r.WF)
     (hb : t.r.size.toNat ≤ t.buf.length) (hS : t.r.size.toNat < 2 ^ 31) :
     (∃ t', t.push x = some t' ∧ t'.r.WF ∧ t'.r.size = t.r.size ∧ t'.buf.length = t.buf.length) ∧
-    (∃ t', t.pop = some t' ∧ t'.r.WF ∧ t'.r.size = t.r.size ∧ t'.buf.length = t.buf.length) ∧
+    (∃ t', t.pop d = some t' ∧ t'.r.WF ∧ t'.r.size = t.r.size ∧ t'.buf.length = t.buf.length) ∧
     (0 ≤ (t.fixupIndex i).toInt ∧ (t.fixupIndex i).toInt < t.r.size.toNat) := by
   have h1 : t.r.head.toNat < t.buf.length := by have := h.1; omega
   have h2 : t.r.tail.toNat < t.buf.length := by have := h.2; omega
   refine ⟨⟨⟨ringMoveHeadOne t.r, t.buf.set t.r.head.toNat x⟩, by simp [TRing.push, poke, h1],
       wf_moveHeadOne h, rfl, by simp⟩,
-    ⟨⟨ringMoveTailOne t.r, t.buf⟩, by simp [TRing.pop, h2], wf_moveTailOne h, rfl, rfl⟩, ?_⟩
+    ⟨⟨ringMoveTailOne t.r, t.buf.set t.r.tail.toNat d⟩, by simp [TRing.pop, h2], wf_moveTailOne h, rfl,
+      by simp⟩, ?_⟩
   exact (fixup_index_correct t.r (by have := h.1; omega) hS i).2
 
 /-- push appends (when not full), pop removes the oldest, tail() is the oldest -/
-theorem ring_push_pop_tail {α : Type} (t : TRing α) (q : List α) (x y : α) :
+theorem ring_push_pop_tail {α : Type} (t : TRing α) (q : List α) (x y d : α) :
     (Abs t.r t.buf q → q.length < t.r.size.toNat - 1 →
       ∃ t', t.push x = some t' ∧ t'.r.size = t.r.size ∧ Abs t'.r t'.buf (q ++ [x])) ∧
     (Abs t.r t.buf (y :: q) →
-      t.tail = some y ∧ ∃ t', t.pop = some t' ∧ t'.r.size = t.r.size ∧ Abs t'.r t'.buf q) :=
-  ⟨fun h hr => TRing.push_abs x h hr, fun h => ⟨TRing.tail_abs h, TRing.pop_abs h⟩⟩
+      t.tail = some y ∧ ∃ t', t.pop d = some t' ∧ t'.r.size = t.r.size ∧ Abs t'.r t'.buf q) :=
+  ⟨fun h hr => TRing.push_abs x h hr, fun h => ⟨TRing.tail_abs h, TRing.pop_abs d h⟩⟩
 
 /-- clear() (`while (!empty()) pop();`) terminates within `|q|` pops and leaves an empty ring -/
-theorem ring_clear_empties {α : Type} (t : TRing α) (q : List α) (h : Abs t.r t.buf q) :
-    ∃ t', TRing.clear (t.r.size.toNat + 1) t = some t' ∧ t'.r.size = t.r.size ∧ Abs t'.r t'.buf [] :=
-  TRing.clear_abs _ h (by have := abs_len_le h; omega)
+theorem ring_clear_empties {α : Type} (d : α) (t : TRing α) (q : List α) (h : Abs t.r t.buf q) :
+    ∃ t', TRing.clear d (t.r.size.toNat + 1) t = some t' ∧ t'.r.size = t.r.size ∧ Abs t'.r t'.buf [] :=
+  TRing.clear_abs d _ h (by have := abs_len_le h; omega)
 
 /-- last() addresses slot `(head − 1) mod size` for EVERY head position
 (including head = 0) and every size `< 2^31`, power of two or not … -/
@@ -550,13 +551,13 @@ head and the ring reports `size − 1` (stale) elements.  Both stay inside the
 buffer.  Hence the exact contract of the typed ring, under which
 `ring_push_pop_tail` gives FIFO behaviour: push only if `room() > 0`, pop only if
 `!empty()`. -/
-theorem ring_push_full_pop_empty {α : Type} (t : TRing α) (q : List α) (x : α) :
+theorem ring_push_full_pop_empty {α : Type} (t : TRing α) (q : List α) (x d : α) :
     (Abs t.r t.buf q → q.length = t.r.size.toNat - 1 →
       ∃ t', t.push x = some t' ∧ t'.r.size = t.r.size ∧ Abs t'.r t'.buf []) ∧
     (Abs t.r t.buf [] →
-      ∃ t', t.pop = some t' ∧ t'.r.size = t.r.size ∧ t'.r.WF ∧
+      ∃ t', t.pop d = some t' ∧ t'.r.size = t.r.size ∧ t'.r.WF ∧
         (ringAvail t'.r).toNat = t.r.size.toNat - 1 ∧ ringFull t'.r = true) :=
-  ⟨fun h hf => TRing.push_full x h hf, fun h => TRing.pop_empty h⟩
+  ⟨fun h hf => TRing.push_full x h hf, fun h => TRing.pop_empty d h⟩
 
 example : Abs (TRing.mk' (0 : Int) 0).r (TRing.mk' (0 : Int) 0).buf [] :=
   (ring_ctor_resize_reset_bounds (0 : Int) TRing.empty 0 (by decide)).1.2.2
@@ -593,8 +594,10 @@ theorem ring_index_of (base elem i : Nat) (he : 0 < elem) :
     indexOf base elem (slotAddr base elem i) = i := by
   simp [indexOf, slotAddr, Nat.mul_div_cancel _ he]
 
-/-! ## 13. extension: element lifetime of igris::ring<T> (finding
-C03-ring-element-lifetime), and for which `T` sections 6 and 12 are the whole truth
+/-! ## 13. extension: element lifetime of igris::ring<T> BEFORE the repairs of
+round 3 (`LRing` with `pushOrig` / `popOrig`: the code as it was; the finding
+C03-ring-element-lifetime is now `fixed`, the full statement is proved for the
+repaired code in §16), and for which `T` sections 6 and 12 were the whole truth
 
 FULL STATEMENT one would want: "every object constructed in the ring is destroyed
 exactly once".  False for the code as written (`ring_element_lifetime_witness`,
@@ -611,7 +614,7 @@ exactly once".  False for the code as written (`ring_element_lifetime_witness`,
 
 /-- the value component of the lifetime model is the typed-ring model -/
 theorem ring_lifetime_values {α : Type} (l : LRing α) (x : α) :
-    (l.push x).map (·.t) = l.t.push x ∧ l.pop.map (·.t) = l.t.pop :=
+    (l.pushOrig x).map (·.t) = l.t.push x ∧ l.popOrig.map (·.t) = l.t.popOrig :=
   ⟨LRing.push_t l x, LRing.pop_t l⟩
 
 /-- after `ring(n)` (every slot already holds a living `T`), EVERY push of ANY
@@ -619,7 +622,7 @@ sequence constructs over a living object whose destructor never runs: `k` pushes
 `k` orphaned objects. -/
 theorem ring_lifetime_fresh_pushes_leak {α : Type} (dflt : α) (n : Nat) (hn : n + 1 < 2 ^ 32)
     (xs : List α) :
-    ∃ l, LRing.pushAll (LRing.mk' dflt n) xs = some l ∧ l.overLive = xs.length ∧ l.deadDtor = 0 := by
+    ∃ l, LRing.pushAllOrig (LRing.mk' dflt n) xs = some l ∧ l.overLive = xs.length ∧ l.deadDtor = 0 := by
   have ha := (ring_ctor_resize_reset_bounds dflt TRing.empty n hn).1
   obtain ⟨l, e, -, ho, hd⟩ := LRing.pushAll_allLive xs (LRing.mk' dflt n) (LRing.mk'_allLive dflt n)
     ha.2.2.1 (by rw [show (LRing.mk' dflt n).t = TRing.mk' dflt n from rfl, ha.1, ha.2.1]; exact Nat.le_refl _)
@@ -627,7 +630,7 @@ theorem ring_lifetime_fresh_pushes_leak {α : Type} (dflt : α) (n : Nat) (hn : 
 
 /-- in ANY state, the slot a `pop` has destroyed is destroyed a second time when the
 ring goes out of scope right after (`~unbounded_array` runs `~T()` on every slot). -/
-theorem ring_lifetime_pop_then_destroy {α : Type} (l l' : LRing α) (e : l.pop = some l')
+theorem ring_lifetime_pop_then_destroy {α : Type} (l l' : LRing α) (e : l.popOrig = some l')
     (hlen : l.live.length = l.t.buf.length) : l.deadDtor + 1 ≤ l'.destroy.deadDtor :=
   LRing.pop_destroy e hlen
 
@@ -638,8 +641,8 @@ always destroys a LIVING object (no double destruction at that moment), and
 theorem ring_lifetime_stored_live {α : Type} (dflt : α) (n : Nat) (l l' : LRing α) (q : List α) (x y : α) :
     LRing.StoredLive (LRing.mk' dflt n) ∧
     (Abs l.t.r l.t.buf q → q.length < l.t.r.size.toNat - 1 → LRing.StoredLive l →
-      l.push x = some l' → LRing.StoredLive l') ∧
-    (Abs l.t.r l.t.buf (y :: q) → LRing.StoredLive l → l.pop = some l' →
+      l.pushOrig x = some l' → LRing.StoredLive l') ∧
+    (Abs l.t.r l.t.buf (y :: q) → LRing.StoredLive l → l.popOrig = some l' →
       LRing.StoredLive l' ∧ l.tailLive = true ∧ l'.deadDtor = l.deadDtor) :=
   ⟨LRing.mk'_storedLive dflt n, fun ha hr hs e => LRing.push_storedLive ha hr hs e,
    fun ha hs e => LRing.pop_storedLive ha hs e⟩
@@ -647,7 +650,7 @@ theorem ring_lifetime_stored_live {α : Type} (dflt : α) (n : Nat) (l l' : LRin
 /-- the finding on the model: `ring<T> r(1); r.push(a); r.pop();` and scope exit —
 one object constructed over a living one (orphaned), one object destroyed twice. -/
 theorem ring_element_lifetime_witness :
-    (((LRing.mk' (0 : Int) 1).push 7).bind fun l => l.pop.map fun l =>
+    (((LRing.mk' (0 : Int) 1).pushOrig 7).bind fun l => l.popOrig.map fun l =>
       (l.destroy.overLive, l.destroy.deadDtor)) = some (1, 1) := by
   decide
 
@@ -718,13 +721,448 @@ for object lifetime).  `ring<char>::read/write` are `ring_read`/`ring_write` on
 theorem ring_typed_fifo_lossless {α : Type} (dflt : α) (n : Nat) (hn : n + 1 < 2 ^ 32)
     (ops : List (TOp α)) (q' : List α) (outs : List (Option α))
     (hspec : runSpecT n [] ops = some (q', outs)) :
-    ∃ t', runT (TRing.mk' dflt n) ops = some (t', outs) ∧ Abs t'.r t'.buf q' ∧
+    ∃ t', runT dflt (TRing.mk' dflt n) ops = some (t', outs) ∧ Abs t'.r t'.buf q' ∧
       t'.r.size.toNat = n + 1 ∧ pushedT ops = deliveredT outs ++ q' := by
   have ha := (ring_ctor_resize_reset_bounds dflt TRing.empty n hn).1
-  obtain ⟨t', e, hs, h'⟩ := runT_refines ops ha.2.2 (by rw [ha.1]; simpa using hspec)
+  obtain ⟨t', e, hs, h'⟩ := runT_refines dflt ops ha.2.2 (by rw [ha.1]; simpa using hspec)
   have := specT_conserves n ops hspec
   exact ⟨t', e, h', by rw [hs, ha.1], by simpa using this⟩
 
 example : (runSpecT 1 ([] : List Int) [.push 7, .pop, .push 8, .pop]).isSome := by decide
+
+/-! ## 16. round 3: element lifetime of igris::ring<T> AFTER the repairs 5bfd4f6
+(`pop`) and fcfbb44 (`push`/`emplace`) — "every object constructed in the ring is
+destroyed exactly once", at full strength -/
+
+/-- the value component of the repaired lifetime model is the typed-ring model:
+§6, §12, §15 hold for every `T` as statements about values -/
+theorem ring_lifetime_values_repaired {α : Type} (v : VRing α) (x d : α) :
+    (v.push x).map (·.t) = v.t.push x ∧ (v.pop d).map (·.t) = v.t.pop d :=
+  ⟨VRing.push_t v x, VRing.pop_t v d⟩
+
+/-- ring_lifetime_exactly_once: construct `igris::ring<T>(n)` for ANY `n` with
+`n + 1 < 2^32` and run ANY script of `push`/`emplace` (also `push(head_place())`,
+the argument aliasing the slot), `pop`, `clear`, `resize`,
+copy construction, move construction and copy assignment to another ring
+(`unbounded_array::operator=`), carrying on with the new object —
+contract-respecting or not: push on a full ring, pop on an empty one included —
+and let the last object go out of scope.  Then no operation faults, and
+* no object was ever constructed over a living object (`overLive = 0`),
+* no destructor ever ran on a slot without a living object (`deadDtor = 0`),
+* no copy ever read a slot without a living object (`deadRead = 0`),
+* at the end no object is alive and #constructor calls = #destructor calls.
+Each destructor call therefore ended the life of a distinct constructed object
+and every constructed object was reached by one: destroyed exactly once.
+While the ring is in use every slot of its array holds a living object. -/
+theorem ring_lifetime_exactly_once {α : Type} (dflt : α) (n : Nat) (hn : n + 1 < 2 ^ 32)
+    (ops : List (VOp α)) (hok : ∀ op ∈ ops, op.ok) :
+    ∃ v, VRing.run dflt (VRing.mk' dflt n) ops = some v ∧
+      v.live = List.replicate v.t.buf.length true ∧
+      v.destroy.overLive = 0 ∧ v.destroy.deadDtor = 0 ∧ v.destroy.deadRead = 0 ∧
+      v.destroy.ctor = v.destroy.dtor ∧ (∀ b ∈ v.destroy.live, b = false) := by
+  obtain ⟨v, e, g⟩ := VRing.run_good dflt ops (VRing.mk'_good dflt n hn) hok
+  obtain ⟨h1, h2, h3, h4, h5⟩ := VRing.invalidate_good g
+  exact ⟨v, e, g.live, h1, h2, h3, h4, h5⟩
+
+example : ∀ op ∈ [VOp.push (1 : Int), .pushSelf, .pop, .pop, .clear, .resize 5, .copy, .move, .assign 3], op.ok := by
+  intro op h
+  simp only [List.mem_cons, List.not_mem_nil, or_false] at h
+  rcases h with rfl | rfl | rfl | rfl | rfl | rfl | rfl | rfl | rfl <;> simp [VOp.ok]
+
+/-- what one `push` / `pop` does to the objects: in a ring whose slots all live,
+exactly one object is destroyed and exactly one is constructed (in the same slot),
+whatever the fill state -/
+theorem ring_lifetime_step_counts {α : Type} (v : VRing α) (x d : α) (g : VRing.Good v) :
+    (∃ v', v.push x = some v' ∧ VRing.Good v' ∧ v'.ctor = v.ctor + 1 ∧ v'.dtor = v.dtor + 1) ∧
+    (∃ v', v.pop d = some v' ∧ VRing.Good v' ∧ v'.ctor = v.ctor + 1 ∧ v'.dtor = v.dtor + 1) :=
+  ⟨VRing.push_good x g, VRing.pop_good d g⟩
+
+example : VRing.Good (VRing.mk' (0 : Int) 1) := VRing.mk'_good 0 1 (by decide)
+
+/-- the script of `ring_element_lifetime_witness` on the repaired code: nothing
+orphaned, nothing destroyed twice, 4 objects constructed (2 by the array, 1 by
+push, 1 by pop) and 4 destroyed -/
+theorem ring_lifetime_repaired_witness :
+    (((VRing.mk' (0 : Int) 1).push 7).bind fun v => (v.pop 0).map fun v =>
+      (v.destroy.overLive, v.destroy.deadDtor, v.destroy.ctor, v.destroy.dtor)) = some (0, 0, 4, 4) := by
+  decide
+
+/-! ## 17. round 3: the bulk calls on a full / empty ring leave the state unchanged -/
+
+/-- "a full ring rejects writes and an empty ring rejects reads without changing
+state" for `ring_write` / `ring_read` (and `igris::ring<char>::write/read`, which
+are these functions on `(r, buffer)`): the answer is 0 bytes and head, tail and
+the whole buffer are what they were, for every data / length. -/
+theorem ring_write_full_read_empty_unchanged (r : RingHead) (buf q d : List Byte) (n : Nat) :
+    (Abs r buf q → q.length = r.size.toNat - 1 → ringWrite r buf d = some (r, buf, 0)) ∧
+    (Abs r buf [] → ringRead r buf n = some (r, [])) :=
+  ⟨fun h hf => write_full_unchanged r buf d (abs_full h hf),
+   fun h => read_empty_unchanged r buf n (abs_empty h)⟩
+
+/-! ## 18. round 3: igris::ring<T> — exactly when `push` / `pop` behave as a queue
+
+FULL STATEMENT of the property text for the typed ring: "a full ring rejects
+`push`, an empty ring rejects `pop`, without changing state".  False for the
+code: `push`/`emplace`/`pop` return `void` and do not test
+(`ring_typed_no_reject_witness`, finding C03-typed-ring-no-reject).  What holds
+is the exact characterisation below (`ring_push_full_pop_empty` says what
+happens outside it). -/
+
+/-- `push` appends to the stored queue IFF the ring is not full; `pop` removes
+exactly one element IFF the ring is not empty. -/
+theorem ring_typed_push_pop_exact {α : Type} (t : TRing α) (q : List α) (x d : α) (h : Abs t.r t.buf q) :
+    ((∃ t', t.push x = some t' ∧ Abs t'.r t'.buf (q ++ [x])) ↔ q.length < t.r.size.toNat - 1) ∧
+    ((∃ t' q', t.pop d = some t' ∧ Abs t'.r t'.buf q' ∧ q'.length + 1 = q.length) ↔ q ≠ []) := by
+  constructor
+  · constructor
+    · rintro ⟨t', e, ha⟩
+      by_cases hf : q.length < t.r.size.toNat - 1
+      · exact hf
+      · have hle := abs_len_le h
+        obtain ⟨t2, e2, -, ha2⟩ := TRing.push_full x h (by omega)
+        rw [e] at e2
+        cases e2
+        have h1 := ha.2.2.1
+        have h2 := ha2.2.2.1
+        rw [← h2] at h1
+        simp at h1
+    · intro hr
+      obtain ⟨t', e, -, ha⟩ := TRing.push_abs x h hr
+      exact ⟨t', e, ha⟩
+  · constructor
+    · rintro ⟨t', q', e, ha, hl⟩ hq
+      subst hq
+      simp at hl
+    · intro hq
+      cases q with
+      | nil => exact absurd rfl hq
+      | cons y q0 =>
+        obtain ⟨t', e, -, ha⟩ := TRing.pop_abs d h
+        exact ⟨t', q0, e, ha, rfl⟩
+
+/-- `igris::ring<int>(3)`: three pushes fill it (avail 3); the fourth push is
+not rejected, the ring then reads as empty (avail 0: four elements lost); a
+`pop` on the fresh (empty) ring is not rejected either, the ring then reports 3
+stored elements. -/
+theorem ring_typed_no_reject_witness :
+    ((((TRing.mk' (0 : Int) 3).push 1).bind fun t => (t.push 2).bind fun t => t.push 3).map
+      fun t => (ringAvail t.r).toNat) = some 3 ∧
+    ((((TRing.mk' (0 : Int) 3).push 1).bind fun t => (t.push 2).bind fun t => (t.push 3).bind fun t =>
+      t.push 4).map fun t => ((ringAvail t.r).toNat, ringEmpty t.r)) = some (0, true) ∧
+    (((TRing.mk' (0 : Int) 3).pop 0).map fun t => ((ringAvail t.r).toNat, ringFull t.r)) = some (3, true) := by
+  decide
+
+/-! ## 19. round 3: the C widths — for exactly which arguments the list-level
+theorems about `ring(n)`, `resize(n)`, `cyclic_buffer(n)` describe the C++ objects -/
+
+/-- `ring(int bufsize)`: the object is the model's `TRing.mk' _ bufsize` (ring size =
+array size = bufsize + 1 ≥ 1) IFF `0 ≤ bufsize < INT_MAX`.  (`bufsize = INT_MAX`:
+signed overflow; `bufsize = −1`: a ring of size 0 over an empty array;
+`bufsize ≤ −2`: a request for 2^64 − |bufsize+1| elements.) -/
+theorem ring_ctor_width_exact (b : BitVec 32) :
+    (∃ r len, ringCtorC b = some (r, len) ∧ r.size.toNat = len ∧ 0 < len ∧ (len : Int) = b.toInt + 1) ↔
+      (0 ≤ b.toInt ∧ b.toInt < 2147483647) := by
+  have hlo : -2147483648 ≤ b.toInt := by have := BitVec.le_toInt b; simpa using this
+  have hhi : b.toInt < 2147483648 := by have := BitVec.toInt_lt (x := b); simpa using this
+  unfold ringCtorC
+  constructor
+  · rintro ⟨r, len, e, h1, h2, h3⟩
+    split at e
+    · cases e
+    · rename_i hne
+      simp only [Option.some.injEq, Prod.mk.injEq] at e
+      obtain ⟨rfl, rfl⟩ := e
+      simp only [ringInit, BitVec.toNat_ofInt] at h1 h2 h3
+      omega
+  · rintro ⟨h0, h1⟩
+    rw [if_neg (by omega)]
+    refine ⟨_, _, rfl, ?_, ?_, ?_⟩ <;> simp only [ringInit, BitVec.toNat_ofInt] <;> omega
+
+/-- witnesses just outside: `ring<T>(-1)` is a ring of size 0 over 0 elements,
+`ring<T>(INT_MAX)` overflows, `ring<T>(INT_MAX - 1)` is fine -/
+theorem ring_ctor_width_witness :
+    ringCtorC (-1) = some (⟨0, 0, 0⟩, 0) ∧ ringCtorC 2147483647 = none ∧
+    ringCtorC 2147483646 = some (⟨0, 0, 2147483647⟩, 2147483647) := by
+  decide
+
+/-- `resize(size_t sz)`: ring size = array size (= sz + 1) IFF `sz + 1 < 2^32`;
+beyond it `ring_init` receives the truncated value. -/
+theorem ring_resize_width_exact (sz : BitVec 64) :
+    ((ringResizeC sz).1.size.toNat = (ringResizeC sz).2 ∧ 0 < (ringResizeC sz).2) ↔
+      sz.toNat + 1 < 2 ^ 32 := by
+  have := sz.isLt
+  have h1 : (1 : BitVec 64).toNat = 1 := rfl
+  simp only [ringResizeC, ringInit, BitVec.toNat_setWidth, BitVec.toNat_add, h1]
+  omega
+
+/-- just outside: `resize(2^32 − 1)` gives a ring of size 0 over 2^32 elements
+(the fix-up loops of such a ring do not terminate, `ring_fixup_terminates_iff`),
+`resize(2^32)` a ring of size 1 (capacity 0) over 2^32 + 1 elements;
+`resize(2^32 − 2)` is the largest faithful one. -/
+theorem ring_resize_width_witness :
+    ringResizeC 0xFFFFFFFF = (⟨0, 0, 0⟩, 4294967296) ∧
+    ringResizeC 0x100000000 = (⟨0, 0, 1⟩, 4294967297) ∧
+    ringResizeC 0xFFFFFFFE = (⟨0, 0, 0xFFFFFFFF⟩, 4294967295) := by
+  decide
+
+/-- `cyclic_buffer(size_t size)`: `counter.size` (an `int`) equals the number of
+elements IFF `size < 2^31`, i.e. `cyclic_buffer_nth` (stated for `Cyclic.mk' _ n`,
+any `n ≥ 1`) describes the C++ object exactly for `1 ≤ n ≤ INT_MAX`. -/
+theorem cyclic_ctor_width_exact (size : BitVec 64) :
+    ((cyclicCtorC size).1.size = ((cyclicCtorC size).2 : Int)) ↔ size.toNat < 2 ^ 31 := by
+  have := size.isLt
+  simp only [cyclicCtorC, rcInit, BitVec.toInt_eq_toNat_cond, BitVec.toNat_setWidth]
+  split <;> omega
+
+/-- just outside: `cyclic_buffer<T>(2^31)` has `counter.size = INT_MIN`, and its
+first `push` overflows `int` in the fix-up loop (`counter −= size` with
+counter = 1) -/
+theorem cyclic_ctor_width_witness :
+    (cyclicCtorC 0x80000000).1 = ⟨0, -2147483648⟩ ∧
+    rcIncrementC (cyclicCtorC 0x80000000).1 1 = none ∧
+    (cyclicCtorC 0x7FFFFFFF).1 = ⟨0, 2147483647⟩ := by
+  decide
+
+/-- the bulk-move bound `size ≤ 2^31` of `ring_move_head_publishes_partial` is
+tight: on the ring of 2^31 + 1 slots, empty at head = tail = 2^31, a move by
+2^31 (= room) makes `head + bias` = 2^32 wrap to 0; (head + bias) mod size is
+2^31 − 1. -/
+theorem ring_move_head_size_witness_tight :
+    (ringMoveHead ⟨0x80000000, 0x80000000, 0x80000001⟩ 0x80000000).head.toNat = 0 ∧
+    (ringRoom ⟨0x80000000, 0x80000000, 0x80000001⟩).toNat = 0x80000000 ∧
+    (0x80000000 + 0x80000000) % 0x80000001 = 0x7FFFFFFF := by
+  decide
+
+/-! ## 20. round 3: `size == 0` -/
+
+/-- `ring_fixup_head` / `ring_fixup_tail` (`while (x >= size) x -= size;`)
+terminate IFF `size ≠ 0` (then within `x` iterations, and the result is
+`fixupLoop`'s, i.e. `x mod size`).  On a ring of size 0 — `ring_init(r, 0)`, a
+default-constructed `igris::ring<T>`, `resize(2^32 − 1)` — every
+`ring_move_head` / `ring_move_tail` hangs (outside the property's quantifier
+"all ring sizes ≥ 2"; finding C03-ring-size-zero). -/
+theorem ring_fixup_terminates_iff (size x : U32) :
+    (∃ fuel, (fixupLoopT size fuel x).isSome = true) ↔ size ≠ 0 := by
+  constructor
+  · rintro ⟨fuel, h⟩ rfl
+    rw [show fixupLoopT 0 fuel x = none from fixupLoopT_zero fuel x] at h
+    cases h
+  · intro hs
+    have hpos : 0 < size.toNat := by
+      rcases Nat.eq_zero_or_pos size.toNat with h0 | h0
+      · exact absurd (BitVec.eq_of_toNat_eq (by simpa using h0)) hs
+      · exact h0
+    exact ⟨x.toNat, by rw [fixupLoopT_pos size hpos _ x (Nat.le_refl _)]; rfl⟩
+
+example : (fixupLoopT 7 20 20).isSome = true := by decide
+
+/-! ## 21. round 3: the bulk moves for every size; `int` results -/
+
+/-- what `ring_move_head` / `ring_move_tail` compute for EVERY size ≥ 1 and EVERY
+bias, inside and outside the region of the `_partial` theorems: the 32-bit sum,
+then reduced modulo `size`. -/
+theorem ring_move_exact_all_sizes (r : RingHead) (hs : 0 < r.size.toNat) (b : U32) :
+    (ringMoveHead r b).head.toNat = ((r.head.toNat + b.toNat) % 2 ^ 32) % r.size.toNat ∧
+    (ringMoveTail r b).tail.toNat = ((r.tail.toNat + b.toNat) % 2 ^ 32) % r.size.toNat :=
+  ⟨moveHead_head r hs b, moveTail_tail r hs b⟩
+
+/-- the region excluded by `ring_move_head_publishes_partial` is exactly
+`size > 2^31`: "every head move within `room` lands on `(head + bias) mod size`"
+holds for a size IFF `size ≤ 2^31` (for every larger size the empty ring at
+head = tail = size − 1 moved by `room = size − 1` is a counterexample). -/
+theorem ring_move_head_exact_iff (size : U32) (hs : 0 < size.toNat) :
+    (∀ head tail bias : U32, head.toNat < size.toNat → tail.toNat < size.toNat →
+        bias.toNat ≤ (ringRoom ⟨head, tail, size⟩).toNat →
+        (ringMoveHead ⟨head, tail, size⟩ bias).head.toNat = (head.toNat + bias.toNat) % size.toNat) ↔
+      size.toNat ≤ 2 ^ 31 := by
+  have hlt := size.isLt
+  constructor
+  · intro h
+    by_cases hS : size.toNat ≤ 2 ^ 31
+    · exact hS
+    · exfalso
+      have e1 : (size - 1).toNat = size.toNat - 1 := by bv_omega
+      have wf : (⟨size - 1, size - 1, size⟩ : RingHead).WF := by
+        constructor <;> (show (size - 1).toNat < size.toNat) <;> omega
+      have hroom : (ringRoom ⟨size - 1, size - 1, size⟩).toNat = size.toNat - 1 := by
+        rw [room_toNat _ wf]
+        show size.toNat - 1 - cntN size.toNat (size - 1).toNat (size - 1).toNat = size.toNat - 1
+        unfold cntN; simp
+      have := h (size - 1) (size - 1) (size - 1) (by omega) (by omega) (by rw [hroom, e1]; exact Nat.le_refl _)
+      rw [moveHead_head ⟨size - 1, size - 1, size⟩ hs (size - 1)] at this
+      simp only [e1] at this
+      have a : (size.toNat - 1 + (size.toNat - 1)) % 2 ^ 32 = 2 * size.toNat - 2 - 2 ^ 32 := by omega
+      have b : (size.toNat - 1 + (size.toNat - 1)) % size.toNat = size.toNat - 2 := by
+        rw [mod_wrap (by omega)]; split <;> omega
+      have c : (2 * size.toNat - 2 - 2 ^ 32) % size.toNat = 2 * size.toNat - 2 - 2 ^ 32 :=
+        Nat.mod_eq_of_lt (by omega)
+      rw [a, c, b] at this
+      omega
+  · intro hS head tail bias hh ht hb
+    have wf : (⟨head, tail, size⟩ : RingHead).WF := ⟨hh, ht⟩
+    rw [room_toNat _ wf] at hb
+    have hb' : bias.toNat ≤ size.toNat - 1 := by
+      have : (⟨head, tail, size⟩ : RingHead).size.toNat = size.toNat := rfl
+      omega
+    rw [moveHead_head ⟨head, tail, size⟩ hs bias]
+    show ((head.toNat + bias.toNat) % 2 ^ 32) % size.toNat = _
+    rw [Nat.mod_eq_of_lt (a := head.toNat + bias.toNat) (by omega)]
+
+example : (4 : U32).toNat ≤ 2 ^ 31 := by decide
+
+/-- `ring_write` / `ring_read` count in an `int` (`int ret`): on every ring of at
+most 2^31 slots the count fits (no signed overflow), whatever the data / length. -/
+theorem ring_bulk_return_fits_int (r : RingHead) (buf q d : List Byte) (n : Nat) (h : Abs r buf q)
+    (hS : r.size.toNat ≤ 2 ^ 31) :
+    (∃ r' buf' k, ringWrite r buf d = some (r', buf', k) ∧ k ≤ 2147483647) ∧
+    (∃ r' out, ringRead r buf n = some (r', out) ∧ out.length ≤ 2147483647) := by
+  have hq := abs_len_le h
+  have hp := abs_size_pos h
+  obtain ⟨r1, b1, e1, -⟩ := ring_write_appends r buf q d h
+  obtain ⟨r2, e2, -⟩ := ring_read_delivers r buf q n h
+  refine ⟨⟨r1, b1, _, e1, by omega⟩, ⟨r2, _, e2, ?_⟩⟩
+  have : (q.take n).length ≤ q.length := by simp; omega
+  omega
+
+/-- `tail_index()` / `head_index()` / `int idx = r.tail` (in `pop`) convert the
+`unsigned` index to `int`: the value is kept IFF it is below 2^31, which the
+index invariant gives on every ring of at most 2^31 slots; witness just outside. -/
+theorem ring_index_fits_int (r : RingHead) (h : r.WF) (hS : r.size.toNat ≤ 2 ^ 31) :
+    r.head.toInt = (r.head.toNat : Int) ∧ r.tail.toInt = (r.tail.toNat : Int) ∧
+    (0x80000000 : BitVec 32).toInt = -2147483648 := by
+  have h1 := h.1
+  have h2 := h.2
+  refine ⟨?_, ?_, by decide⟩ <;> rw [BitVec.toInt_eq_toNat_cond] <;> split <;> omega
+
+/-! ## 22. round 3: igris::ring<char> — bulk and single operations interleaved on one object -/
+
+/-- ring_char_mixed_history: construct `igris::ring<char>(n)`, ANY `n` with
+`n + 1 < 2^32`, and apply ANY interleaving of `write(buf, len)` / `read(buf, len)`
+of ANY length (0, up to the wrap point, across it, the whole ring, more than
+room / more than stored) with `push` and `tail(); pop()` inside the typed ring's
+contract (`runSpecC ≠ none`).  Then no access leaves the buffer, EVERY return value,
+every `tail()` and every byte read equal those of the reference `List Byte` queue
+of capacity `n`, the final ring stores the final reference queue, and
+accepted bytes = delivered bytes ++ stored bytes.  (The C API counterpart with
+putc/getc is `ring_refines_fifo_partial`, which has no size restriction for
+histories without bulk MOVES.) -/
+theorem ring_char_mixed_history (n : Nat) (hn : n + 1 < 2 ^ 32) (ops : List COp) (q' : List Byte)
+    (outs : List COut) (hspec : runSpecC n [] ops = some (q', outs)) :
+    ∃ t', runC (TRing.mk' 0 n) ops = some (t', outs) ∧ Abs t'.r t'.buf q' ∧
+      t'.r.size.toNat = n + 1 ∧ acceptedAllC ops outs = deliveredAllC outs ++ q' := by
+  have ha := (ring_ctor_resize_reset_bounds (0 : Byte) TRing.empty n hn).1
+  obtain ⟨t', e, hs, h'⟩ := runC_refines ops ha.2.2 (by rw [ha.1]; simpa using hspec)
+  have := specC_conserves n ops hspec
+  exact ⟨t', e, h', by rw [hs, ha.1], by simpa using this⟩
+
+example : (runSpecC 2 [] [.write [0xFF, 0x80, 0x00], .pop, .push 7, .read 5, .write [], .read 0]).isSome := by
+  decide
+
+/-! ## 23. round 3: `cyclic_buffer[i]` for every `int i` -/
+
+/-- in a cyclic buffer of `n` samples (any state reached from the constructor /
+`resize` by pushes: `CInv`), `cb[i]` stays inside the array IFF
+`counter − i < n` — every `i ≥ 0`, and the negative `i > counter − n` — and for
+those `i` it addresses the slot of `i mod n`: `cb[i] = cb[i mod n]`, so with
+`cyclic_buffer_nth` the `(i mod n)`-th previous sample.  At `i = counter − n` the
+access is `data[n]` (finding C03-cyclic-index-below-range; model witness
+`ring_counter_beyond_witness`). -/
+theorem cyclic_buffer_index_exact {α : Type} (c : Cyclic α) (n : Nat) (log : List α) (h : CInv c n log)
+    (i : Int) :
+    ((c.nth i).isSome = true ↔ c.counter.counter - i < n) ∧
+    (c.counter.counter - i < n → c.nth i = c.nth (i % (n : Int))) := by
+  obtain ⟨k, hk, hkn⟩ := h.cnt
+  have hpos := h.pos
+  have hs : 0 < c.counter.size := by rw [h.sz]; omega
+  have hnn : (0 : Int) ≤ i % (n : Int) := Int.emod_nonneg _ (by omega)
+  have hprev : ∀ j : Int, c.counter.counter - j < n →
+      rcPrev c.counter j = (c.counter.counter - j) % (n : Int) := by
+    intro j hlt
+    have := rcPrev_eq c.counter hs j (by rw [h.sz]; exact hlt)
+    rw [h.sz] at this; exact this
+  constructor
+  · constructor
+    · intro hsome
+      by_cases hlt : c.counter.counter - i < n
+      · exact hlt
+      · exfalso
+        have e : rcPrev c.counter i = c.counter.counter - i := by
+          unfold rcPrev
+          have : (-(c.counter.counter - i)).toNat = 0 := by omega
+          simp only [this, rcUp]
+        unfold Cyclic.nth Cyclic.at? at hsome
+        rw [e, if_neg (by omega)] at hsome
+        rw [List.getElem?_eq_none (by rw [h.len]; omega)] at hsome
+        simp at hsome
+    · intro hlt
+      unfold Cyclic.nth Cyclic.at?
+      rw [hprev i hlt]
+      have h1 := Int.emod_nonneg (c.counter.counter - i) (show (n : Int) ≠ 0 by omega)
+      have h2 := Int.emod_lt_of_pos (c.counter.counter - i) (show (0 : Int) < n by omega)
+      rw [if_neg (by omega)]
+      have hl : ((c.counter.counter - i) % (n : Int)).toNat < c.data.length := by rw [h.len]; omega
+      rw [List.getElem?_eq_getElem hl]; rfl
+  · intro hlt
+    have hlt2 : c.counter.counter - i % (n : Int) < n := by omega
+    have key : (c.counter.counter - i) % (n : Int) = (c.counter.counter - i % (n : Int)) % (n : Int) := by
+      rw [Int.sub_emod, Int.sub_emod c.counter.counter (i % (n : Int)) n,
+        Int.emod_emod_of_dvd _ (Int.dvd_refl _)]
+    unfold Cyclic.nth
+    rw [hprev i hlt, hprev _ hlt2, key]
+
+example : CInv (Cyclic.mk' (0 : Int) 3) 3 [] := cinv_mk' 0 3 (by decide)
+
+/-! ## 24. round 3: cyclic_buffer in `int` arithmetic; `size_t` lengths of igris::ring::write -/
+
+/-- in every state of a cyclic buffer of `n ≤ INT_MAX` samples the `int` arithmetic
+of `push` (`ring_counter_increment(&counter, 1)`) never overflows and `operator[](i)`
+never does for `0 ≤ i`: there the unbounded-integer model `Cyclic.push` / `Cyclic.nth`
+(of `cyclic_buffer_nth`) IS the C arithmetic. -/
+theorem cyclic_buffer_int_safe {α : Type} (c : Cyclic α) (n : Nat) (log : List α) (h : CInv c n log)
+    (hn : n ≤ 2147483647) (i : Int) (hi : inInt i) :
+    rcIncrementC c.counter 1 = some (rcIncrement c.counter 1) ∧
+    (0 ≤ i → rcPrevC c.counter i = some (rcPrev c.counter i)) := by
+  obtain ⟨k, hk, hkn⟩ := h.cnt
+  have hpos := h.pos
+  have hs : 0 < c.counter.size := by rw [h.sz]; omega
+  have hsI : inInt c.counter.size := by rw [h.sz]; unfold inInt; omega
+  obtain ⟨e1, -, -, -, -⟩ := ring_counter_int_exact c.counter hs hsI 1 (by decide)
+  obtain ⟨-, e2, -, -, -⟩ := ring_counter_int_exact c.counter hs hsI i hi
+  refine ⟨?_, fun h0 => ?_⟩
+  · rw [e1, if_pos]; rw [hk]; unfold inInt; omega
+  · rw [e2, if_pos]; rw [hk]; unfold inInt at hi ⊢; omega
+
+/-- `igris::ring<T>::write(buf, sz)` hands the `size_t sz` to an `unsigned int`
+parameter: it is `ring_write` of the whole data IFF-side `sz < 2^32`; a request of
+`2^32 + k` elements is served as a request of `k` (model only: needs a source of
+more than 4 GiB; the return value tells the caller). -/
+theorem ring_typed_write_width {α : Type} (t : TRing α) (d : List α) (k : Nat) :
+    (d.length < 2 ^ 32 →
+      t.writeC d = (ringWrite t.r t.buf d).map fun (r', b', n) => (⟨r', b'⟩, n)) ∧
+    (k < 2 ^ 32 → d.length = 2 ^ 32 + k →
+      t.writeC d = (ringWrite t.r t.buf (d.take k)).map fun (r', b', n) => (⟨r', b'⟩, n)) := by
+  constructor
+  · intro h
+    unfold TRing.writeC
+    rw [Nat.mod_eq_of_lt h, List.take_of_length_le (Nat.le_refl _)]
+  · intro hk hl
+    unfold TRing.writeC
+    have : d.length % 2 ^ 32 = k := by omega
+    rw [this]
+
+example : inInt (0 : Int) := by decide
+
+/-! ## 25. round 3: `get`, `head_place`, a moved-from ring brought back by `resize` -/
+
+/-- `get(index)` / `head_place()` are plain subscripts of the array: element `i` of
+the stored queue is `get((tail + i) mod size)`, `head_place()` is `get(head)`; and a
+moved-from ring (no storage) becomes the freshly constructed `ring(n)` again by
+`resize(n)`. -/
+theorem ring_get_head_place_moved {α : Type} (dflt : α) (t : TRing α) (q : List α) (n : Nat)
+    (h : Abs t.r t.buf q) :
+    (∀ i (hi : i < q.length), t.get ((t.r.tail.toNat + i) % t.r.size.toNat) = some q[i]) ∧
+    t.headPlace = t.get t.r.head.toNat ∧
+    TRing.resize dflt t.move.2 n = TRing.mk' dflt n :=
+  ⟨fun i hi => h.2.2.2 i hi, rfl, rfl⟩
 
 end Igris.C03
